@@ -946,7 +946,7 @@ def run(chk: Check):
         _b1(chk, dict(kinds=["normal", "seed", "wrapper", "proxyonly", "none"], pairs=[12], behaviours=ALLB, naddons=1,
                       faults=["none", "cap"], maxcalls=1, bad=[False], close=[1, 2]), "close")
         _b1(chk, dict(kinds=KINDS, pairs=[12], behaviours=["ignore", "clearcap", "setcap", "take", "takeResume", "inject", "handled"],
-                      naddons=1, faults=F3, maxcalls=1, bad=[False], close=[1, 2]), "recap")
+                      naddons=1, faults=F3, maxcalls=1, bad=[False]), "recap")
         _b2(chk, 1600, 5, "walks")
     if chk.cov.get("b1_raise_points_expected", 0) and not chk.cov.get("b1_raise_points_reached", 0) and not chk.violations:
         raise common.MachineryError("no scripted fault ever made pump_proxy_event raise: fault injection is vacuous")
